@@ -135,12 +135,12 @@ func (s *sliceMachine) Discard(ctx context.Context, task *Task) {
 	if !ok {
 		return
 	}
-	// s exclusively owns task's state during this time, so this does not race
-	// with anything else.
-	task.Set(TaskLost)
 	if err := s.RetryCall(ctx, "Worker.Discard", task.Name, nil); err != nil {
 		log.Error.Printf("error discarding %v: %v", task, err)
 	}
+	// s exclusively owns task's state during this time, so this does not race
+	// with anything else.
+	task.Set(TaskLost)
 }
 
 // Go manages a sliceMachine: it polls stats at regular intervals and
